@@ -715,6 +715,273 @@ fn case_release_orders(cx: &mut Cx) {
     cx.rep.note("case release-orders: accessors called with Release/AcqRel orderings (legal for the corresponding Rust atomic operation); outside the statement of C23, run only on request");
 }
 
+
+// ------------------------------------------------------------------------------------------
+// Concurrent phase: fields of one header owned by different threads
+// ------------------------------------------------------------------------------------------
+
+#[derive(Clone, Copy)]
+struct CField {
+    spec: HeaderMetadataSpec,
+    mask: Option<u64>,
+    tid: u64,
+}
+
+struct COut {
+    newv: u64,
+    bad: Option<(&'static str, String)>,
+    container_cas_failure: bool,
+    retries: u32,
+}
+
+/// One atomic operation of the owner of `f`; `cur` is the owner's model value (restricted to the
+/// masked bits).  Only the owner ever writes these bits, so every returned value is determined.
+fn conc_op<T: W>(f: &CField, hdr: Address, op: usize, cur: u64, a: u64, b: u64) -> COut {
+    let n = f.spec.num_of_bits;
+    let full = ones(n);
+    let m = f.mask.map(|m| m & full).unwrap_or(full);
+    let tmask: Option<T> = f.mask.map(T::from64);
+    let spec = f.spec;
+    let mut out = COut { newv: cur, bad: None, container_cas_failure: false, retries: 0 };
+    let o = Ordering::SeqCst;
+    match op {
+        0 => {
+            let r = spec.load_atomic::<T>(hdr, tmask, o).to64();
+            if r != cur {
+                out.bad = Some(("load_atomic:return", format!("returned {:#x}", r)));
+            }
+        }
+        1 => {
+            spec.store_atomic::<T>(hdr, T::from64(a & m), tmask, o);
+            out.newv = a & m;
+        }
+        2 => match spec.compare_exchange::<T>(hdr, T::from64(cur), T::from64(b & m), tmask, o, o) {
+            Ok(v) => {
+                if v.to64() != cur {
+                    out.bad = Some(("compare_exchange:return-ok", format!("Ok({:#x})", v.to64())));
+                }
+                out.newv = b & m;
+            }
+            Err(v) => {
+                // legal only where the access goes through a container shared with other fields
+                // (the byte of a sub-byte field, the whole value of a masked field)
+                if n >= 8 && f.mask.is_none() {
+                    out.bad = Some(("compare_exchange:failed-on-own-value", format!("Err({:#x})", v.to64())));
+                } else if v.to64() != cur {
+                    out.bad = Some(("compare_exchange:return-err", format!("Err({:#x})", v.to64())));
+                }
+                out.container_cas_failure = true;
+            }
+        },
+        3 => {
+            let mut old = a & m;
+            if old == cur {
+                old = (cur ^ (m & m.wrapping_neg())) & m; // flip the lowest masked bit
+            }
+            match spec.compare_exchange::<T>(hdr, T::from64(old), T::from64(b & m), tmask, o, o) {
+                Ok(v) => out.bad = Some(("compare_exchange:succeeded-with-wrong-old", format!("Ok({:#x}) old={:#x}", v.to64(), old))),
+                Err(v) => {
+                    if v.to64() != cur {
+                        out.bad = Some(("compare_exchange:return-err", format!("Err({:#x}) old={:#x}", v.to64(), old)));
+                    }
+                }
+            }
+        }
+        4 => {
+            let r = spec.fetch_add::<T>(hdr, T::from64(a & full), o).to64();
+            if r != cur {
+                out.bad = Some(("fetch_add:return", format!("returned {:#x}", r)));
+            }
+            out.newv = cur.wrapping_add(a & full) & full;
+        }
+        5 => {
+            let r = spec.fetch_sub::<T>(hdr, T::from64(a & full), o).to64();
+            if r != cur {
+                out.bad = Some(("fetch_sub:return", format!("returned {:#x}", r)));
+            }
+            out.newv = cur.wrapping_sub(a & full) & full;
+        }
+        6 => {
+            let r = spec.fetch_and::<T>(hdr, T::from64(a & full), o).to64();
+            if r != cur {
+                out.bad = Some(("fetch_and:return", format!("returned {:#x}", r)));
+            }
+            out.newv = cur & a & full;
+        }
+        7 => {
+            let r = spec.fetch_or::<T>(hdr, T::from64(a & full), o).to64();
+            if r != cur {
+                out.bad = Some(("fetch_or:return", format!("returned {:#x}", r)));
+            }
+            out.newv = cur | (a & full);
+        }
+        _ => {
+            let calls = Cell::new(0u32);
+            let wrong: Cell<Option<u64>> = Cell::new(None);
+            let (calls_r, wrong_r) = (&calls, &wrong);
+            let r = spec.fetch_update::<T, _>(hdr, o, o, move |old: T| {
+                calls_r.set(calls_r.get() + 1);
+                if old.to64() != cur {
+                    wrong_r.set(Some(old.to64()));
+                }
+                Some(T::from64(b & full))
+            });
+            out.retries = calls.get().saturating_sub(1);
+            if let Some(w) = wrong.get() {
+                out.bad = Some(("fetch_update:closure-arg", format!("closure saw {:#x}", w)));
+            }
+            match r {
+                Ok(v) => {
+                    if v.to64() != cur && out.bad.is_none() {
+                        out.bad = Some(("fetch_update:return", format!("Ok({:#x})", v.to64())));
+                    }
+                }
+                Err(v) => out.bad = Some(("fetch_update:rejected", format!("Err({:#x}) although the closure accepted", v.to64()))),
+            }
+            out.newv = b & full;
+        }
+    }
+    out
+}
+
+fn conc_layout(rng: &mut Rng) -> (Vec<CField>, &'static str) {
+    let mut v = vec![];
+    if rng.chance(1, 2) {
+        // one header byte split into 2..8 sub-byte fields
+        let base = (rng.below(32) as isize - 8) * 8;
+        let mut at = 0usize;
+        while at < 8 {
+            let max = std::cmp::min(7, 8 - at);
+            let n = 1 + rng.usize_below(std::cmp::min(max, 3));
+            v.push(CField { spec: HeaderMetadataSpec { bit_offset: base + at as isize, num_of_bits: n }, mask: None, tid: *rng.pick(&[0u64, 0, 1, 2, 3, 4]) });
+            at += n;
+        }
+        (v, "split-byte")
+    } else {
+        // a 64-bit field whose mask leaves out its low k bits (and sometimes its top byte), with
+        // sub-byte fields in the low bits and a byte field on top: forwarding-word style
+        let base = (rng.below(4) as isize - 1) * 64;
+        let k = 1 + rng.usize_below(7);
+        let top = rng.chance(1, 2);
+        let mut mask = !ones(k);
+        if top {
+            mask &= !(0xffu64 << 56);
+            v.push(CField { spec: HeaderMetadataSpec { bit_offset: base + 56, num_of_bits: 8 }, mask: None, tid: 0 });
+        }
+        v.push(CField { spec: HeaderMetadataSpec { bit_offset: base, num_of_bits: 64 }, mask: Some(mask), tid: *rng.pick(&[3u64, 4]) });
+        let mut at = 0usize;
+        while at < k {
+            let n = 1 + rng.usize_below(std::cmp::min(k - at, 3));
+            v.push(CField { spec: HeaderMetadataSpec { bit_offset: base + at as isize, num_of_bits: n }, mask: None, tid: *rng.pick(&[0u64, 0, 3]) });
+            at += n;
+        }
+        (v, "masked-word")
+    }
+}
+
+fn concurrent_phase(args: &Args, rep: &mut Report, rng: &mut Rng) {
+    let rounds = if args.thorough() { 4000 } else { 300 };
+    let nops = if args.thorough() { 20_000 } else { 8_000 };
+    let mut buf = Box::new(Buf([0u8; BUF]));
+    let p = buf.0.as_mut_ptr() as usize;
+    let hdr = unsafe { Address::from_usize(p + HDR) };
+    for round in 0..rounds {
+        let (fields, kind) = conc_layout(rng);
+        let threads = std::cmp::min(fields.len(), 2 + rng.usize_below(3));
+        let fill = rand_fill(rng);
+        unsafe { std::ptr::copy_nonoverlapping(fill.as_ptr(), p as *mut u8, BUF) };
+        let seed = rng.next();
+        let fields_r = &fields;
+        let fill_r = &fill;
+        type TOut = (u64, u64, u64, Vec<(String, String)>, Vec<(usize, u64)>, Vec<u64>);
+        let outs: Vec<TOut> = std::thread::scope(|s| {
+            let hs: Vec<_> = (0..threads)
+                .map(|t| {
+                    s.spawn(move || {
+                        let mut rng = Rng::new(mix(seed, t as u64 + 1));
+                        let mine: Vec<usize> = (0..fields_r.len()).filter(|i| i % threads == t).collect();
+                        let mut model: Vec<u64> = mine
+                            .iter()
+                            .map(|&i| {
+                                let f = &fields_r[i];
+                                let full = ones(f.spec.num_of_bits);
+                                get_field(fill_r, f.spec.bit_offset, f.spec.num_of_bits) & f.mask.map(|m| m & full).unwrap_or(full)
+                            })
+                            .collect();
+                        let (mut ops, mut cfail, mut retries) = (0u64, 0u64, 0u64);
+                        let mut viol = vec![];
+                        let mut keys = vec![];
+                        for _ in 0..nops {
+                            let k = rng.usize_below(mine.len());
+                            let f = &fields_r[mine[k]];
+                            let op = if f.mask.is_some() { rng.usize_below(4) } else { rng.usize_below(9) };
+                            let (a, b) = (rng.next(), rng.next());
+                            let cur = model[k];
+                            let o = match f.tid {
+                                0 => conc_op::<u8>(f, hdr, op, cur, a, b),
+                                1 => conc_op::<u16>(f, hdr, op, cur, a, b),
+                                2 => conc_op::<u32>(f, hdr, op, cur, a, b),
+                                3 => conc_op::<u64>(f, hdr, op, cur, a, b),
+                                _ => conc_op::<usize>(f, hdr, op, cur, a, b),
+                            };
+                            ops += 1;
+                            cfail += o.container_cas_failure as u64;
+                            retries += o.retries as u64;
+                            if let Some((name, what)) = o.bad {
+                                if viol.len() < 4 {
+                                    viol.push((
+                                        format!("concurrent:{}:{}:bits={}:masked={}", kind, name, f.spec.num_of_bits, f.mask.is_some() as u8),
+                                        format!("thread {} of {}: field bit_offset={} num_of_bits={} mask={:x?} T-id={} owner's value before={:#x}: {}; all fields of this header: {:?}",
+                                            t, threads, f.spec.bit_offset, f.spec.num_of_bits, f.mask, f.tid, cur, what,
+                                            fields_r.iter().map(|f| (f.spec.bit_offset, f.spec.num_of_bits, f.mask)).collect::<Vec<_>>()),
+                                    ));
+                                }
+                            }
+                            model[k] = o.newv;
+                            if keys.len() < 256 {
+                                keys.push(mix(mix(0xC23C, f.spec.num_of_bits as u64 * 8 + (f.spec.bit_offset & 7) as u64), mix(op as u64, f.mask.is_some() as u64 | (threads as u64) << 1)));
+                            }
+                        }
+                        (ops, cfail, retries, viol, mine.iter().cloned().zip(model.iter().cloned()).collect(), keys)
+                    })
+                })
+                .collect();
+            hs.into_iter().map(|h| h.join().expect("C23 concurrent thread panicked")).collect()
+        });
+        // merged model: the fill with every field's (masked) bits replaced by its owner's value
+        let mut want = fill;
+        for (ops, cfail, retries, viol, finals, keys) in outs {
+            rep.evaluations += ops;
+            rep.count("concurrent_ops", ops);
+            rep.count("concurrent_container_level_cas_failures", cfail);
+            rep.count("concurrent_fetch_update_closure_retries", retries);
+            for k in keys {
+                rep.key(k);
+            }
+            for (s, d) in viol {
+                rep.violation(s, d);
+            }
+            for (i, v) in finals {
+                let f = &fields[i];
+                let full = ones(f.spec.num_of_bits);
+                let m = f.mask.map(|m| m & full).unwrap_or(full);
+                let prev = get_field(&want, f.spec.bit_offset, f.spec.num_of_bits);
+                set_field(&mut want, f.spec.bit_offset, f.spec.num_of_bits, (prev & !m) | (v & m));
+            }
+        }
+        let got: [u8; BUF] = unsafe { *(p as *const [u8; BUF]) };
+        if got != want {
+            rep.violation(
+                format!("concurrent:{}:final-header-differs-from-owners-models", kind),
+                format!("round {} ({} threads x {} atomic ops on disjoint fields {:?}): header {} expected {} (initial {})",
+                    round, threads, nops, fields.iter().map(|f| (f.spec.bit_offset, f.spec.num_of_bits, f.mask)).collect::<Vec<_>>(), hex(&got), hex(&want), hex(&fill)),
+            );
+        }
+        rep.count(if kind == "split-byte" { "concurrent_rounds_split_byte" } else { "concurrent_rounds_masked_word" }, 1);
+    }
+    drop(buf);
+}
+
 pub fn run(args: &Args, rep: &mut Report) {
     if !cfg!(target_endian = "little") {
         rep.inconclusive("the bit-vector model assumes a little-endian target");
@@ -794,6 +1061,11 @@ pub fn run(args: &Args, rep: &mut Report) {
     }
     cx.rep.count("sequences", nseq);
     std::panic::set_hook(prev_hook);
+    // ---- 3. real threads, each owning some fields of one header --------------------------------
+    if !args.miri() {
+        let mut crng = cx.rng.fork();
+        concurrent_phase(args, cx.rep, &mut crng);
+    }
     for (i, op) in ALL_OPS.iter().enumerate() {
         let name = match op {
             Op::CasHit => "op_compare_exchange_old_is_current".to_string(),
